@@ -477,7 +477,7 @@ fn random_qop(rng: &mut Rng) -> Value {
             if rng.chance(1, 2) {
                 json!(["try_get_typed_checksum"])
             } else {
-                let n = ps(rng, &["RepositoryUrl", "DownloadUrl", "VcsUrl", "FileName", "gem::Platform", "maven::Classifier", "maven::Type"]);
+                let n = ps(rng, &["RepositoryUrl", "DownloadUrl", "VcsUrl", "FileName", "gem::Platform", "maven::Classifier", "maven::Type", "user::BuildTag"]);
                 match rng.below(3) {
                     0 => json!(["insert_typed", n, v]),
                     1 => json!(["get_typed", n]),
@@ -1063,7 +1063,7 @@ const V_ALIASES: &[&str] = &["rubygems", "go", "Go", "pip", "crates.io", "crate"
 const V_NS: &[&str] = &["", "org.apache.commons", "@angular", "github.com/go-redis/redis", "library", "debian", "Some.Group", "gopkg.in", "k8s.io/api"];
 const V_NAMES: &[&str] = &["io", "cli", "v8", "v2", "v10", "redis", "Django_.-pkg", "Newtonsoft.Json", "yaml.v3", "commons-io", "curl", "jar", "type",
                            "serde_json", "requests[security]", "BurntSushi", "!burnt!sushi"];
-const V_VERS: &[&str] = &["", "1.0.0", "v8.11.5", "2", "10", "1a", "1.2.0", "1.10.0", "1.1rc.0", "1.0.0-rc.1+build.5", "sha256:abcd", "latest", "v2", "7.50.3-1"];
+const V_VERS: &[&str] = &["", "1.0.0", "2.0.0-RC1", "1.0-SNAPSHOT", "V2", "v8.11.5", "2", "10", "1a", "1.2.0", "1.10.0", "1.1rc.0", "1.0.0-rc.1+build.5", "sha256:abcd", "latest", "v2", "7.50.3-1"];
 const V_KEYS: &[&str] = &["repository_url", "download_url", "vcs_url", "file_name", "checksum", "arch", "os", "distro", "type", "classifier", "platform",
                           "ext", "packaging", "epoch", "tag", "channel", "subdir", "build", "Type", "VCS_URL"];
 const V_VALS: &[&str] = &["jar", "pom", "sources", "war", "zip", "linux", "amd64", "x86_64", "noarch", "java", "ruby", "1", "true",
